@@ -316,6 +316,68 @@ pub fn run_c07(toks: &[&str]) -> Lines {
     out
 }
 
+// a xorb at the size limits (oracle only: the data is generated here from a seed, the case text stays short):
+//   <scheme> <nchunks> <chunk_len> <seed> <kind: r(andom)|t(ext-like)>
+// serialize, reload, read the whole object and a few ranges, compare with the input
+pub fn run_c07big(toks: &[&str]) -> Lines {
+    let scheme = scheme_of(toks[0]);
+    let n: usize = toks[1].parse().unwrap();
+    let len: usize = toks[2].parse().unwrap();
+    let mut st: u64 = toks[3].parse::<u64>().unwrap().wrapping_mul(0x9E3779B97F4A7C15) | 1;
+    let text = toks.get(4) == Some(&"t");
+    let mut chunks: Vec<Vec<u8>> = Vec::with_capacity(n);
+    for _ in 0..n {
+        let mut c = Vec::with_capacity(len);
+        while c.len() < len {
+            st ^= st << 13;
+            st ^= st >> 7;
+            st ^= st << 17;
+            if text {
+                c.extend_from_slice(&[b'a' + (st % 7) as u8; 8]);
+            } else {
+                c.extend_from_slice(&st.to_le_bytes());
+            }
+        }
+        c.truncate(len);
+        chunks.push(c);
+    }
+    let x = build_xorb(chunks, scheme);
+    let mut why: Vec<String> = vec![];
+    let mut rd = Cursor::new(&x.bytes);
+    let total: usize = x.chunks.iter().map(|c| c.len()).sum();
+    match CasObject::deserialize(&mut rd) {
+        Err(e) => why.push(format!("deserialize-of-own-output:{:?}", e)),
+        Ok(cas) => {
+            if cas != x.cas {
+                why.push("footer-reload-differs".into());
+            }
+            match cas.get_all_bytes(&mut rd) {
+                Ok(d) if d.len() == total && d == x.chunks.concat() => {},
+                Ok(d) => why.push(format!("get_all_bytes-{}-of-{}", d.len(), total)),
+                Err(e) => why.push(format!("get_all_bytes-error:{:?}", e)),
+            }
+            let n32 = n as u32;
+            for (a, b) in [(0u32, 1u32), (n32 - 1, n32), (n32 / 2, n32 / 2 + 2), (0, n32)] {
+                if a < b && b <= n32 {
+                    match cas.get_bytes_by_chunk_range(&mut rd, a, b) {
+                        Ok(d) if d == x.chunks[a as usize..b as usize].concat() => {},
+                        Ok(_) => why.push(format!("range{}-{}-differs", a, b)),
+                        Err(e) => why.push(format!("range{}-{}-error:{:?}", a, b, e)),
+                    }
+                    match cas.uncompressed_range_length(a, b) {
+                        Ok(l) if l as usize == x.chunks[a as usize..b as usize].iter().map(|c| c.len()).sum::<usize>() => {},
+                        r => why.push(format!("range-length{}-{}:{:?}", a, b, r)),
+                    }
+                }
+            }
+        },
+    }
+    vec![
+        ("obs", format!("big n={} bytes={} physical={}", n, total, x.bytes.len())),
+        ("orc", if why.is_empty() { "ok".to_string() } else { format!("FAIL {}", why.join(",")) }),
+    ]
+}
+
 // bg4: split/regroup variants of the crate against the independent ones, on raw data
 pub fn run_bg4(toks: &[&str]) -> Lines {
     use cas_object::byte_grouping::bg4::*;
